@@ -8,6 +8,7 @@
 //         no probe test runs; parse()==true -> every getter callable; MEANING: getters == expected configuration;
 //         both: a 16-test probe registry driven through CommandLineTestRunner executes exactly the tests that the C02
 //         selection model picks for the filters, repeat times, reversed / shuffled / in separate-process mode as configured.
+#include <regex>   // before the CppUTest headers (their "new" macro breaks placement new in libstdc++)
 #include "common.h"
 #include "CppUTest/CommandLineArguments.h"
 #include "CppUTest/CommandLineTestRunner.h"
@@ -92,7 +93,14 @@ public:
 };
 
 void reset_current_registry() { static TestRegistry keeper; keeper.setCurrentRegistry(NULLPTR); }
-MemoryLeakWarningPlugin* g_memleak;   // one long-lived plugin, as CommandLineTestRunner::RunAllTests installs
+// ---------------------------------------------------------------- file / stdout seams for the real entry point CommandLineTestRunner::RunAllTests
+struct FakeFile { std::string name, text; bool closed = false; };
+std::vector<std::unique_ptr<FakeFile>> g_files; std::string g_stdout;
+PlatformSpecificFile fake_fopen(const char* name, const char*) { g_files.emplace_back(new FakeFile); g_files.back()->name = name ? name : "(null)"; return g_files.back().get(); }
+void fake_fputs(const char* str, PlatformSpecificFile f) { if (f == PlatformSpecificStdOut) g_stdout += str; else for (auto& x : g_files) if (x.get() == f) x->text += str; }
+void fake_fclose(PlatformSpecificFile f) { for (auto& x : g_files) if (x.get() == f) x->closed = true; }
+void fake_flush() {}
+PlatformSpecificFile (*g_orig_fopen)(const char*, const char*); void (*g_orig_fputs)(const char*, PlatformSpecificFile); void (*g_orig_fclose)(PlatformSpecificFile); void (*g_orig_flush)(void);
 
 void reset_globals() {
     reset_current_registry();
@@ -100,6 +108,7 @@ void reset_globals() {
     UtestShell::setRethrowExceptions(false);
     PlatformSpecificRunTestInASeperateProcess = g_orig_sep;
     PlatformSpecificSrand = g_orig_srand; PlatformSpecificRand = g_orig_rand;
+    PlatformSpecificFOpen = g_orig_fopen; PlatformSpecificFPuts = g_orig_fputs; PlatformSpecificFClose = g_orig_fclose; PlatformSpecificFlush = g_orig_flush;
     verif::fake_millis_value = 0;
 }
 struct GlobalsGuard { ~GlobalsGuard() { reset_globals(); } };
@@ -131,6 +140,20 @@ bool read_filters(const TestFilter* f, std::vector<Flt>& out, std::string& err) 
         bool m1 = f->match(SimpleString(text.c_str())), m2 = f->match(SimpleString((text + "\x01").c_str()));
         Flt r; r.text = text; r.inverted = !m1; r.strict = m1 != m2;
         out.push_back(r);
+    }
+    return true;
+}
+// TestFilter::operator== / != and StringFrom() are how the repository itself states "this is the configured filter":
+// they must agree with the comparison of (text, strict, inverted) made above, for every configured filter against every expected one
+bool filter_equality_consistent(const TestFilter* list, const std::vector<Flt>& got, const std::vector<Flt>& want, std::string& err) {
+    size_t i = 0;
+    for (const TestFilter* f = list; f != NULLPTR && i < got.size(); f = f->getNext(), i++) {
+        if (std::string(StringFrom(*f).asCharString()) != f->asString().asCharString()) { err = "StringFrom(filter) differs from filter.asString()"; return false; }
+        for (auto& w : want) {
+            TestFilter e(w.text.c_str()); if (w.strict) e.strictMatching(); if (w.inverted) e.invertMatching();
+            bool eq = *f == e, ne = *f != e, sym = e == *f;
+            if (eq != (got[i] == w) || ne == eq || sym != eq) { err = "operator==/!= on " + show(got[i]) + " vs " + show(w) + sfmt(" gives ==%d !=%d (reversed ==%d)", (int)eq, (int)ne, (int)sym); return false; }
+        }
     }
     return true;
 }
@@ -319,29 +342,36 @@ bool safety_nontrivial(const std::vector<std::string>& args) {   // the first ar
 std::string show_ids(const std::vector<int>& v) { std::string o; for (int x : v) o += sfmt("%d ", x); return o; }
 
 // `c` is the configuration the run has to follow (MEANING: from the interpreter; SAFETY: read back from the getters)
-int run_through_runner(const Argv& argv, bool expect_reject, bool expect_help, const Config& c, const std::string& ctx) {
+// real_entry: through the static CommandLineTestRunner::RunAllTests(ac, av) with the real output objects; what they write is caught at the file seams
+int run_through_runner(const Argv& argv, bool expect_reject, bool expect_help, const Config& c, const std::string& ctx, bool real_entry, bool exact_names) {
+    MemoryLeakWarningPlugin memleak(DEF_PLUGIN_MEM_LEAK);
     TestRegistry reg;
     reg.setCurrentRegistry(&reg);
     std::vector<std::unique_ptr<UtestShell>> shells;
     for (size_t i = 0; i < NP; i++) shells.emplace_back(PROBES[i].ignored ? (UtestShell*)new IgnoredProbeShell((int)i) : (UtestShell*)new ProbeShell((int)i));
     for (size_t i = NP; i-- > 0;) reg.addTest(shells[i].get());   // registry order = index order
-    reg.installPlugin(g_memleak);
+    if (!real_entry) reg.installPlugin(&memleak);
     PlatformSpecificRunTestInASeperateProcess = sep_process_stub;
+    g_files.clear(); g_stdout.clear();
+    if (real_entry) { PlatformSpecificFOpen = fake_fopen; PlatformSpecificFPuts = fake_fputs; PlatformSpecificFClose = fake_fclose; PlatformSpecificFlush = fake_flush; }
     memset(g_exec, 0, sizeof g_exec); g_exec_order.clear(); g_sep_calls = 0;
     g_outs.clear(); g_junit_package.clear(); g_junit_created = g_teamcity_created = g_console_created = 0;
 
     int rc = 0;
     {
-        VRunner runner(argv.ac, argv.av, &reg);
-        int result = runner.runAllTestsMain();
+        std::unique_ptr<VRunner> runner;
+        int result;
+        if (real_entry) result = CommandLineTestRunner::RunAllTests(argv.ac, (char**)argv.av);   // the main(ac, av) overload; forwards to the const one,   // installs its own leak plugin into the current registry
+        else { runner.reset(new VRunner(argv.ac, argv.av, &reg)); result = runner->runAllTestsMain(); }
         size_t total = 0; for (size_t i = 0; i < NP; i++) total += (size_t)g_exec[i];
         std::string console;
         for (RecOut* o : g_outs) if (o->kind == OUT_NORMAL) console += o->text();
+        if (real_entry) console = g_stdout;
         if (expect_reject) {
             CommandLineArguments ref(argv.ac, argv.av);
             const char* want = expect_help ? ref.help() : ref.usage();
             if (total != 0) rc = verif::fail("C12:rejected-but-tests-ran", "rejected argument vector, yet %zu probe executions [%s]", total, ctx.c_str());
-            else if (g_console_created != 1 || console != want) rc = verif::fail("C12:rejected-without-usage", "rejected argument vector: %s text not printed, got \"%s\" [%s]", expect_help ? "help" : "usage", verif::printable(console).substr(0, 200).c_str(), ctx.c_str());
+            else if ((!real_entry && g_console_created != 1) || console != want) rc = verif::fail("C12:rejected-without-usage", "rejected argument vector: %s text not printed, got \"%s\" [%s]", expect_help ? "help" : "usage", verif::printable(console).substr(0, 200).c_str(), ctx.c_str());
             else if (strstr(ref.usage(), "usage") == NULLPTR || strstr(ref.help(), "-xsn") == NULLPTR) rc = verif::fail("C12:usage-text", "usage()/help() lost their content");
             else if (result == 0) rc = verif::fail("C12:rejected-returns-success", "rejected argument vector, runner returned 0 [%s]", ctx.c_str());
         } else {
@@ -371,7 +401,44 @@ int run_through_runner(const Argv& argv, bool expect_reject, bool expect_help, c
             if (!rc && (size_t)g_sep_calls != (c.sep ? total : 0))
                 rc = verif::fail("C12:separate-process", "separate process %s, %d of %zu executions went through the separate-process seam [%s]", c.sep ? "requested" : "not requested", g_sep_calls, total, ctx.c_str());
             // output kind, package, verbosity, colour
-            if (!rc) {
+            if (!rc && real_entry) {
+                bool console_like = c.output != OUT_JUNIT || c.verbose || c.veryVerbose;
+                bool has_tc = g_stdout.find("##teamcity[") != std::string::npos;
+                if (has_tc != (c.output == OUT_TEAMCITY && !listing)) rc = verif::fail("C12:real-output-kind", "TeamCity service messages %s on stdout, output kind %d [%s]", has_tc ? "present" : "absent", c.output, ctx.c_str());
+                else if ((g_files.size() > 0) != (c.output == OUT_JUNIT && !listing)) rc = verif::fail("C12:real-output-kind", "%zu files written, output kind %d (1 = junit) [%s]", g_files.size(), c.output, ctx.c_str());
+                for (auto& f : g_files) if (!rc) {
+                    bool ok = f->closed && f->name.compare(0, 9, "cpputest_") == 0 && f->name.size() >= 13 && f->name.compare(f->name.size() - 4, 4, ".xml") == 0;
+                    if (ok && exact_names) {   // identifier-like package: cpputest_[<package>_]<group>.xml for a registered group
+                        ok = false;
+                        std::string stem = "cpputest_" + (c.package.empty() ? std::string() : c.package + "_");
+                        for (size_t i = 0; i < NP; i++) if (f->name == stem + PROBES[i].group + ".xml") ok = true;
+                        if (f->name == stem + ".xml") ok = true;   // a group whose tests were all filtered out is written under an empty group name: JUnit's business (C16), not judged here
+                        if (ok && !c.package.empty() && f->text.find("<testcase") != std::string::npos && f->text.find("classname=\"" + c.package + ".") == std::string::npos) ok = false;   // every test case is classified under the package
+                    }
+                    if (!ok) rc = verif::fail("C12:real-junit-file", "JUnit file \"%s\" (closed=%d) does not fit package \"%s\" and the registered groups [%s]", verif::printable(f->name).c_str(), (int)f->closed, verif::printable(c.package).c_str(), ctx.c_str());
+                }
+                if (!rc && !listing) {
+                    // the summary line of every repetition: "<n> tests, <ran> ran, <checks> checks, <ignored> ignored, <filtered out> filtered out"
+                    size_t n_sel = 0, n_run = 0; for (size_t i = 0; i < NP; i++) { if (selected[i]) n_sel++; if (runs[i]) n_run++; }
+                    static const std::regex re("([0-9]+) tests, ([0-9]+) ran, ([0-9]+) checks, ([0-9]+) ignored, ([0-9]+) filtered out");
+                    size_t lines = 0;
+                    for (std::sregex_iterator it(g_stdout.begin(), g_stdout.end(), re), end; it != end && !rc; ++it, ++lines) {
+                        size_t v[5]; for (int k = 0; k < 5; k++) v[k] = (size_t)strtoul((*it)[k + 1].str().c_str(), NULLPTR, 10);
+                        if (v[0] != NP || v[1] != n_run || v[2] != 0 || v[3] != n_sel - n_run || v[4] != NP - n_sel)
+                            rc = verif::fail("C12:real-summary", "summary line \"%s\", expected %zu tests, %zu ran, 0 checks, %zu ignored, %zu filtered out [%s]", it->str().c_str(), NP, n_run, n_sel - n_run, NP - n_sel, ctx.c_str());
+                    }
+                    if (!rc && lines != (console_like ? c.repeat : 0)) rc = verif::fail("C12:real-summary", "%zu summary lines on stdout for %zu repetitions (console output %s) [%s]", lines, c.repeat, console_like ? "expected" : "not expected", ctx.c_str());
+                    // -v prints each test name as it runs; -c colours
+                    bool any_name = g_stdout.find("TEST(") != std::string::npos;
+                    bool want_names = console_like && (c.verbose || c.veryVerbose) && n_sel > 0 && c.output != OUT_TEAMCITY;
+                    if (!rc && c.output != OUT_TEAMCITY && any_name != want_names) rc = verif::fail("C12:real-verbose", "test names %s on stdout, verbose=%d very verbose=%d [%s]", any_name ? "printed" : "not printed", (int)c.verbose, (int)c.veryVerbose, ctx.c_str());
+                    if (!rc && want_names) for (size_t i = 0; i < NP && !rc; i++) if (runs[i] && g_stdout.find(std::string("TEST(") + PROBES[i].group + ", " + PROBES[i].name + ")") == std::string::npos)
+                        rc = verif::fail("C12:real-verbose", "verbose run does not print TEST(%s, %s) [%s]", PROBES[i].group, PROBES[i].name, ctx.c_str());
+                    bool coloured = g_stdout.find("\033[") != std::string::npos;
+                    if (!rc && coloured != (c.color && console_like)) rc = verif::fail("C12:real-colour", "colour escape %s on stdout, -c %d [%s]", coloured ? "present" : "absent", (int)c.color, ctx.c_str());
+                }
+            }
+            if (!rc && !real_entry) {
                 int want_junit = c.output == OUT_JUNIT ? 1 : 0, want_tc = c.output == OUT_TEAMCITY ? 1 : 0;
                 int want_console = c.output == OUT_NORMAL ? 1 : (c.output == OUT_JUNIT && (c.verbose || c.veryVerbose)) ? 1 : 0;
                 if (g_junit_created != want_junit || g_teamcity_created != want_tc || g_console_created != want_console)
@@ -393,14 +460,16 @@ int run_through_runner(const Argv& argv, bool expect_reject, bool expect_help, c
             // list modes print what the help says they print
             if (!rc && listing) {
                 std::string all; for (RecOut* o : g_outs) all += o->text();
+                bool single = g_outs.size() == 1;
+                if (real_entry) { all = g_stdout; single = c.output != OUT_JUNIT; }
                 if (c.lg) {
                     std::vector<std::string> seen; std::string want;
                     for (size_t i = 0; i < NP; i++) if (std::find(seen.begin(), seen.end(), PROBES[i].group) == seen.end()) { seen.push_back(PROBES[i].group); want += (want.empty() ? "" : " ") + std::string(PROBES[i].group); }
-                    if (g_outs.size() == 1 && all != want) rc = verif::fail("C12:list-groups", "-lg printed \"%s\", expected \"%s\" [%s]", verif::printable(all).substr(0, 300).c_str(), want.c_str(), ctx.c_str());
+                    if (single && all != want) rc = verif::fail("C12:list-groups", "-lg printed \"%s\", expected \"%s\" [%s]", verif::printable(all).substr(0, 300).c_str(), want.c_str(), ctx.c_str());
                 } else if (c.ln) {
                     // every selected test must be listed as group.name, nothing that is not a registered test (whether filters apply is not documented)
                     std::vector<std::string> items; std::string cur; for (char ch : all) { if (ch == ' ') { items.push_back(cur); cur.clear(); } else cur.push_back(ch); } if (!cur.empty()) items.push_back(cur);
-                    if (g_outs.size() == 1) {
+                    if (single) {
                         for (size_t i = 0; i < NP && !rc; i++) { std::string gn = std::string(PROBES[i].group) + "." + PROBES[i].name; bool listed = std::find(items.begin(), items.end(), gn) != items.end();
                             if (selected[i] && !listed) rc = verif::fail("C12:list-names", "-ln does not list selected test %s: \"%s\" [%s]", gn.c_str(), verif::printable(all).substr(0, 300).c_str(), ctx.c_str()); }
                         for (auto& it : items) { bool reg_ = false; for (size_t i = 0; i < NP; i++) if (it == std::string(PROBES[i].group) + "." + PROBES[i].name) reg_ = true;
@@ -408,7 +477,7 @@ int run_through_runner(const Argv& argv, bool expect_reject, bool expect_help, c
                     }
                 } else {
                     for (size_t i = 0; i < NP && !rc; i++) { std::string rec = sfmt("%s.%s.probe.cpp.%d\n", PROBES[i].group, PROBES[i].name, (int)(10 + i));
-                        if (all.find(rec) == std::string::npos) rc = verif::fail("C12:list-locations", "-ll does not print %s [%s]", verif::printable(rec).c_str(), ctx.c_str()); }
+                        if ((single || !real_entry) && all.find(rec) == std::string::npos) rc = verif::fail("C12:list-locations", "-ll does not print %s [%s]", verif::printable(rec).c_str(), ctx.c_str()); }
                 }
             }
         }
@@ -431,6 +500,8 @@ int meaning_case(Reader& r, bool& nontrivial, std::string& desc) {
         if ((o.valued && o.separated) || o.paired) sep_or_pair = true;
         if (!go_on) { help = true; break; }
     }
+    bool real_entry = r.below(4) == 1;   // trailing choice: through the static entry point RunAllTests with the real output objects
+    if (real_entry) verif::cls("runner:real-entry-point");
     nontrivial = nopt >= 2 && args.size() > 2 && valued >= 1 && sep_or_pair;
     desc = "meaning: " + show_args(args);
     if (verif::g_explain) fprintf(stderr, "case: %s\n", desc.c_str());
@@ -441,7 +512,8 @@ int meaning_case(Reader& r, bool& nontrivial, std::string& desc) {
     GlobalsGuard guard;
     Argv argv(args);
     {
-        TestRegistry reg; reg.installPlugin(g_memleak);
+        MemoryLeakWarningPlugin memleak(DEF_PLUGIN_MEM_LEAK);   // per case: the real entry point destroys the global detector when it returns
+        TestRegistry reg; reg.installPlugin(&memleak);
         SetPointerPlugin sp(DEF_PLUGIN_SET_POINTER); reg.installPlugin(&sp);
         CommandLineArguments a(argv.ac, argv.av);
         bool ok = a.parse(reg.getFirstPlugin());
@@ -467,6 +539,8 @@ int meaning_case(Reader& r, bool& nontrivial, std::string& desc) {
             std::vector<Flt> a1 = got.gf, b1 = want.gf, a2 = got.nf, b2 = want.nf;
             std::sort(a1.begin(), a1.end()); std::sort(b1.begin(), b1.end()); std::sort(a2.begin(), a2.end()); std::sort(b2.begin(), b2.end());
             V_CHECK(a1 == b1, "C12:group-filters", "group filters {%s}, documented meaning gives {%s} [%s]", show(got.gf).c_str(), show(want.gf).c_str(), desc.c_str());
+            V_CHECK(filter_equality_consistent(a.getGroupFilters(), got.gf, want.gf, err) && filter_equality_consistent(a.getNameFilters(), got.nf, want.nf, err),
+                    "C12:filter-equality", "%s [%s]", err.c_str(), desc.c_str());
             V_CHECK(a2 == b2, "C12:name-filters", "name filters {%s}, documented meaning gives {%s} [%s]", show(got.nf).c_str(), show(want.nf).c_str(), desc.c_str());
         }
     }
@@ -495,7 +569,7 @@ int meaning_case(Reader& r, bool& nontrivial, std::string& desc) {
         for (auto& f : want.nf) if (!f.strict) for (size_t i = 0; i < NP; i++) if (needs_backtracking(PROBES[i].name, f.text)) nb = true;
         if (nb) verif::cls("meaning:substring-occurrence-after-overlapping-false-start");
     }
-    if (help || want.repeat <= 4) { verif::cls("runner:driven"); return run_through_runner(argv, help, help, want, desc); }
+    if (help || want.repeat <= 4) { verif::cls("runner:driven"); return run_through_runner(argv, help, help, want, desc, real_entry, true); }
     verif::cls("runner:skipped-large-repeat");
     return 0;
 }
@@ -503,6 +577,8 @@ int meaning_case(Reader& r, bool& nontrivial, std::string& desc) {
 int safety_case(Reader& r, bool literal, bool& nontrivial, std::string& desc) {
     std::vector<std::string> args; args.push_back("probe.exe");
     for (auto& a : literal ? gen_safety_literal(r) : gen_safety_structured(r)) args.push_back(a);
+    bool real_entry = !literal && r.below(4) == 1;
+    if (real_entry) verif::cls("runner:real-entry-point");
     nontrivial = safety_nontrivial(std::vector<std::string>(args.begin() + 1, args.end()));
     desc = std::string(literal ? "safety(literal): " : "safety: ") + show_args(args);
     if (verif::g_explain) fprintf(stderr, "case: %s\n", desc.c_str());
@@ -511,7 +587,8 @@ int safety_case(Reader& r, bool literal, bool& nontrivial, std::string& desc) {
     Argv argv(args);
     Config got; bool ok;
     {
-        TestRegistry reg; reg.installPlugin(g_memleak);
+        MemoryLeakWarningPlugin memleak(DEF_PLUGIN_MEM_LEAK);   // per case: the real entry point destroys the global detector when it returns
+        TestRegistry reg; reg.installPlugin(&memleak);
         SetPointerPlugin sp(DEF_PLUGIN_SET_POINTER); reg.installPlugin(&sp);
         CommandLineArguments a(argv.ac, argv.av);
         ok = a.parse(reg.getFirstPlugin());
@@ -525,10 +602,10 @@ int safety_case(Reader& r, bool literal, bool& nontrivial, std::string& desc) {
             if (!got.gf.empty() || !got.nf.empty()) verif::cls("safety:accepted-with-filters");
         } else {
             verif::cls("runner:driven");
-            return run_through_runner(argv, true, help, got, desc);
+            return run_through_runner(argv, true, help, got, desc, real_entry, false);
         }
     }
-    if (got.repeat <= 4) { verif::cls("runner:driven"); return run_through_runner(argv, false, false, got, desc); }
+    if (got.repeat <= 4) { verif::cls("runner:driven"); return run_through_runner(argv, false, false, got, desc, real_entry, false); }
     verif::cls("runner:skipped-large-repeat");
     return 0;
 }
@@ -540,7 +617,7 @@ extern "C" void verif_init(void) {
     verif::install_fake_time();
     g_orig_sep = PlatformSpecificRunTestInASeperateProcess;
     g_orig_srand = PlatformSpecificSrand; g_orig_rand = PlatformSpecificRand;
-    g_memleak = new MemoryLeakWarningPlugin(DEF_PLUGIN_MEM_LEAK);
+    g_orig_fopen = PlatformSpecificFOpen; g_orig_fputs = PlatformSpecificFPuts; g_orig_fclose = PlatformSpecificFClose; g_orig_flush = PlatformSpecificFlush;
 }
 extern "C" int verif_case(const uint8_t* data, size_t size) {
     Reader r(data, size);
